@@ -163,6 +163,137 @@ def _set_order_uses(mod, tree):
     return bad, unknown
 
 
+def _iterable_params(fnode):
+    out = []
+    a = fnode.args
+    for arg in list(a.posonlyargs) + list(a.args) + list(a.kwonlyargs):
+        if arg.annotation is not None:
+            t = ast.unparse(arg.annotation)
+            if "Iterable" in t or "Iterator" in t or "Generator" in t:
+                out.append(arg.arg)
+    return out
+
+
+def _binds(fn, name):
+    a = fn.args
+    return any(x.arg == name for x in list(a.posonlyargs) + list(a.args) + list(a.kwonlyargs) + ([a.vararg] if a.vararg else []) + ([a.kwarg] if a.kwarg else []))
+
+
+# parameters that receive the one-shot iterators made by Chart._partition_lines_by_data_section
+# (the values of its dict): roots of the propagation below
+ONE_SHOT_ROOTS = [("chartparse.metadata:Metadata.from_chart_lines", 1), ("chartparse.sync:SyncTrack.from_chart_lines", 2),
+                  ("chartparse.globalevents:GlobalEventsTrack.from_chart_lines", 1), ("chartparse.instrument:InstrumentTrack.from_chart_lines", 3)]
+
+
+def _param_names(fnode):
+    a = fnode.args
+    return [x.arg for x in list(a.posonlyargs) + list(a.args)] , [x.arg for x in a.kwonlyargs]
+
+
+def _one_shot_params(idx):
+    """(function key, parameter) pairs that may hold a one-shot iterator: the roots (read from
+    from_file's call sites by position) and every package function parameter one of them is
+    passed on to as a bare name."""
+    seen, work = set(), []
+    for key, pos in ONE_SHOT_ROOTS:
+        info = idx.funcs.get(key)
+        if info is None:
+            continue
+        posn, _ = _param_names(info.node)
+        if pos < len(posn):
+            work.append((key, posn[pos]))
+    while work:
+        key, pn = work.pop()
+        if (key, pn) in seen:
+            continue
+        seen.add((key, pn))
+        info = idx.funcs[key]
+        for n in ast.walk(info.node):
+            if not isinstance(n, ast.Call):
+                continue
+            fname = n.func.attr if isinstance(n.func, ast.Attribute) else (n.func.id if isinstance(n.func, ast.Name) else None)
+            if fname is None:
+                continue
+            cands = [k for k in idx.funcs if k.split(":")[1].split(".")[-1] == fname]
+            # prefer a method of the same class, then the same module
+            owner = key.rsplit(".", 1)[0]
+            same = [k for k in cands if k.rsplit(".", 1)[0] == owner] or [k for k in cands if k.split(":")[0] == key.split(":")[0]] or cands
+            for k in same[:1] if len(same) >= 1 else []:
+                posn, kwn = _param_names(idx.funcs[k].node)
+                method = posn and posn[0] in ("self", "cls") and isinstance(n.func, ast.Attribute)
+                off = 1 if method else 0
+                for i, a_ in enumerate(n.args):
+                    if isinstance(a_, ast.Name) and a_.id == pn and i + off < len(posn):
+                        work.append((k, posn[i + off]))
+                for kw in n.keywords:
+                    if isinstance(kw.value, ast.Name) and kw.value.id == pn and kw.arg in posn + kwn:
+                        work.append((k, kw.arg))
+    return sorted(seen)
+
+
+def _consumptions(fnode, name):
+    """(max number of once-only uses of `name` on any path through the body, uses that may
+    execute more than once).  A use inside a loop body, a comprehension element, a nested
+    function or a lambda may execute several times; if/else branches are exclusive."""
+    multi = []
+
+    def names_in(node, skip_nested=True):
+        n = 0
+        stack = [node]
+        while stack:
+            x = stack.pop()
+            if isinstance(x, (ast.FunctionDef, ast.AsyncFunctionDef, ast.Lambda)) and x is not node:
+                inner = 0 if _binds(x, name) else sum(1 for y in ast.walk(x) if isinstance(y, ast.Name) and y.id == name and isinstance(y.ctx, ast.Load))
+                if inner:
+                    multi.append(f"line {x.lineno}: used inside a nested function (runs once per call of it)")
+                continue
+            if isinstance(x, (ast.ListComp, ast.SetComp, ast.GeneratorExp, ast.DictComp)):
+                # the first generator's iterable is evaluated once; everything else per element
+                first = x.generators[0].iter
+                n += names_in(first)
+                rest = [y for g in x.generators for y in ([g.target] + g.ifs)] + [g.iter for g in x.generators[1:]]
+                rest += [x.key, x.value] if isinstance(x, ast.DictComp) else [x.elt]
+                for r in rest:
+                    if any(isinstance(y, ast.Name) and y.id == name and isinstance(y.ctx, ast.Load) for y in ast.walk(r)):
+                        multi.append(f"line {x.lineno}: used per element of a comprehension")
+                continue
+            if isinstance(x, ast.Name) and x.id == name and isinstance(x.ctx, ast.Load):
+                n += 1
+            stack.extend(ast.iter_child_nodes(x))
+        return n
+
+    def block(stmts):
+        total = 0
+        for st in stmts:
+            if isinstance(st, ast.If):
+                total += names_in(st.test) + max(block(st.body), block(st.orelse))
+            elif isinstance(st, (ast.For, ast.AsyncFor)):
+                total += names_in(st.iter)
+                if block(st.body) or block(st.orelse):
+                    multi.append(f"line {st.lineno}: used inside a loop body")
+            elif isinstance(st, ast.While):
+                if names_in(st.test) or block(st.body):
+                    multi.append(f"line {st.lineno}: used inside a loop")
+            elif isinstance(st, ast.Try):
+                total += block(st.body) + max([block(h.body) for h in st.handlers] or [0]) + block(st.orelse) + block(st.finalbody)
+            elif isinstance(st, (ast.With, ast.AsyncWith)):
+                total += sum(names_in(i.context_expr) for i in st.items) + block(st.body)
+            elif isinstance(st, ast.ClassDef):
+                pass
+            elif isinstance(st, ast.Assign) and len(st.targets) == 1 and isinstance(st.targets[0], ast.Name) and st.targets[0].id == name \
+                    and isinstance(st.value, ast.Call) and ast.unparse(st.value.func).endswith("cast") and len(st.value.args) == 2 \
+                    and isinstance(st.value.args[1], ast.Name) and st.value.args[1].id == name:
+                pass        # `x = typ.cast(T, x)`: identity, not a use
+            elif isinstance(st, (ast.FunctionDef, ast.AsyncFunctionDef)):
+                inner = 0 if _binds(st, name) else sum(1 for y in ast.walk(st) if isinstance(y, ast.Name) and y.id == name and isinstance(y.ctx, ast.Load))
+                if inner:
+                    multi.append(f"line {st.lineno}: used inside nested function {st.name} (runs once per call of it)")
+            else:
+                total += names_in(st)
+        return total
+    return block(fnode.body), multi
+
+
 def run(reg, idx, name, timeout_ms=None, seed=0):
     t0 = time.time()
     res = {"name": name, "engine": "fxvc", "status": "ok", "reason": "", "obligations": [], "callees": [], "notes": [],
@@ -174,7 +305,23 @@ def run(reg, idx, name, timeout_ms=None, seed=0):
         idx = SourceIndex()
         fr = frames.analyze(idx)
         obs = res["obligations"]
-        if name == "fx:frames":
+        if name == "fx:iterables":
+            # A parameter typed Iterable may be a one-shot iterator (Chart.from_file hands
+            # itertools.islice objects to the section parsers).  pyvc models such a parameter as a
+            # sequence; that is sound only if the function consumes it at most once on every path
+            # (materialising it with list() counts as the one use).
+            res["assumptions"].append("an Iterable argument yields its items once, in order (itertools.islice over a list: list[a:b])")
+            targets = _one_shot_params(idx)
+            obs.append(ob("fx/package/one-shot-iterator-parameters-found", len(targets) >= len(ONE_SHOT_ROOTS), targets))
+            for key, pn in targets:
+                info = idx.funcs[key]
+                if True:
+                    once, multi = _consumptions(info.node, pn)
+                    ok = once <= 1 and not multi
+                    detail = f"{once} use(s) on one path" + ("; " + "; ".join(multi) if multi else "")
+                    obs.append(ob(f"fx/{key}/iterable-parameter-{pn}-consumed-at-most-once", ok, detail,
+                                  {"parameter": pn, "uses_on_one_path": once, "repeatable_uses": multi}))
+        elif name == "fx:frames":
             for key, f in sorted(fr.items()):
                 bad = f.violations()
                 obs.append(ob(f"fx/{key}/modifies-only-objects-it-allocates", not bad, "; ".join(map(repr, bad)),
